@@ -10,7 +10,7 @@ META = {
     "assumptions": [
         "theorems about values are about exact real arithmetic; IEEE rounding is outside every theorem (tolerance 2^-30 scaled in the tie, 1e-9 scaled in the oracle)",
         "hand-written models Model/SparseM.v (structure as lists of rows, values as rows of values = slices of the C arrays at rowadr) and Model/Sparse.v; tie is differential testing on the cases of this run",
-        "models are generated through the mjSpec C API (harness/drivers/mjgen.h): no XML, fixed tendons only, no sleeping",
+        "models are generated through the mjSpec C API (harness/drivers/mjgen.h plus extra bodies/tendons added by the driver): no XML, no geom-wrapping tendons, no sleeping",
     ],
 }
 META["text"] = (
@@ -25,8 +25,9 @@ META["text"] = (
     "because two off-diagonal columns s < r of a row always have s in the row of r); C06_solveLD: the three passes (zero-skip and diagonal-row shortcuts included) solve (L'DL) w = x. "
     "Positive definiteness of M (hence positive pivots) is NOT proved, it is an oracle check. "
     "NOT proved, oracle only (on implementation outputs of compiled random trees with free/ball/slide/hinge joints, branching, several trees, joint armature, fixed tendons with and without tendon armature): "
-    "M symmetric positive definite and equal to sum_b J_b' I_b J_b + armature (+ tendon armature), L'DL reconstructs M, mj_solveM(mj_mulM v) = v, mj_fullM v = mj_mulM v, qfrc_bias = mj_rne(0), "
-    "qfrc_bias = an independent world-frame Newton-Euler force at zero acceleration (sum_b Jp' m (Jdot_p v - g) + Jr' (I Jdot_r v + w x I w), Jdot v by central differences of mj_jac along qvel, 2e-6; bodies with 2-3 joints in mixed hinge/slide order are in the fixed corpus), "
+    "M symmetric positive definite and equal to sum_b J_b' I_b J_b + armature (+ tendon armature; joint and tendon armature include armature*gear^2 of the actuators attached to them, recorded at model-building time independently of jnt_actuatorid/tendon_actuatorid), L'DL reconstructs M, mj_solveM(mj_mulM v) = v, mj_fullM v = mj_mulM v, qfrc_bias = mj_rne(0), "
+    "qfrc_bias = an independent world-frame Newton-Euler force at zero acceleration (sum_b Jp' m (Jdot_p v - g) + Jr' (I Jdot_r v + w x I w), Jdot v by central differences of mj_jac along qvel, plus armature_t J_t' (Jdot_t v) per tendon with Jdot_t v by central differences of ten_J, 2e-6; bodies with 2-3 joints in mixed hinge/slide order and spatial tendons with pulleys (divisor != 1) and armature are in the fixed corpus), "
+    "mj_inverse: qfrc_inverse + qfrc_passive + qfrc_constraint = (mj_mulM a) + that independent bias, "
     "mj_rne(a) - mj_rne(0) + armature.a (+ tendon armature term) = M a (mj_rne itself carries no armature term: the identity of the property statement holds with the armature added, as mj_inverse does). "
     "mj_crb, mj_rne, mj_tendonArmature, the upper = true variants of the structure builder (tied exactly, no theorem), index/sleep filtering and n > 1 right-hand sides are not modelled. "
     "Tie: mj_makeDofDofSparse (exported) is called on raw random forests for all four reduced x upper variants and compared exactly with the model; m->M_rownnz/M_rowadr/M_colind of compiled trees are compared exactly with the model applied to "
@@ -176,13 +177,22 @@ def run(ctx):
     for seed, feat, nbody in ((11, FEAT["SPRING"], 1), (12, FEAT["SPRING"] | FEAT["SLIDE"], 2), (13, FEAT["SPRING"] | FEAT["SLIDE"] | FEAT["MULTITREE"], 3),
                               (14, FEAT["SPRING"] | FEAT["BALL"] | FEAT["SLIDE"], 4), (15, FEAT["SPRING"] | FEAT["FREE"] | FEAT["SLIDE"], 3), (16, FEAT["SPRING"], 5)):
         reqs.append(("model", {"seed": seed, "feat": feat, "nbody": nbody, "flags": 4}, "model %d %d %d %d" % (seed, feat, nbody, 4)))
+    # fixed corpus: spatial tendons with pulleys (divisor != 1) and armature, on chains and branching trees
+    for seed, feat, nbody in ((21, FEAT["SPRING"], 3), (22, FEAT["SPRING"], 4), (23, FEAT["SPRING"] | FEAT["SLIDE"], 3), (24, FEAT["SPRING"] | FEAT["BALL"], 4),
+                              (25, FEAT["SPRING"] | FEAT["MULTITREE"], 5), (26, FEAT["SPRING"] | FEAT["FREE"], 3), (27, FEAT["SPRING"], 2), (28, FEAT["SPRING"], 6)):
+        reqs.append(("model", {"seed": seed, "feat": feat, "nbody": nbody, "flags": 8}, "model %d %d %d %d" % (seed, feat, nbody, 8)))
+        reqs.append(("model", {"seed": seed, "feat": feat, "nbody": nbody, "flags": 12}, "model %d %d %d %d" % (seed, feat, nbody, 12)))
+    # fixed corpus: actuators with armature (gear != 1, several per target) on scalar joints, fixed tendons and spatial tendons
+    for seed, feat, nbody, fl in ((31, FEAT["SPRING"], 2, 16), (32, FEAT["SPRING"] | FEAT["TENDON"], 3, 16), (33, FEAT["SPRING"] | FEAT["TENDON"], 4, 17),
+                                  (34, FEAT["SPRING"], 4, 24), (35, FEAT["SPRING"] | FEAT["SLIDE"], 3, 28), (36, FEAT["SPRING"] | FEAT["MULTITREE"], 5, 30)):
+        reqs.append(("model", {"seed": seed, "feat": feat, "nbody": nbody, "flags": fl}, "model %d %d %d %d" % (seed, feat, nbody, fl)))
     for k in range(14 * T):
         feat = FEAT["SPRING"]
         for name in ("FREE", "BALL", "SLIDE", "MULTITREE", "TENDON"):
             if rng.random() < 0.6:
                 feat |= FEAT[name]
         nbody = rng.choice([1, 2, 3, 4, 5, 6, 8, 10])
-        flags = (1 if (feat & FEAT["TENDON"]) and rng.random() < 0.5 else 0) | (2 if rng.random() < 0.5 else 0) | (4 if rng.random() < 0.6 else 0)
+        flags = (1 if (feat & FEAT["TENDON"]) and rng.random() < 0.5 else 0) | (2 if rng.random() < 0.5 else 0) | (4 if rng.random() < 0.6 else 0) | (8 if rng.random() < 0.5 else 0) | (16 if rng.random() < 0.5 else 0)
         seed = rng.randrange(1, 10 ** 6)
         reqs.append(("model", {"seed": seed, "feat": feat, "nbody": nbody, "flags": flags}, "model %d %d %d %d" % (seed, feat, nbody, flags)))
     reqs.append(("tendemo", {"armature": 0.5, "coef": [1.0, 1.0]}, "tendemo %s %s %s" % (hx(0.5), hx(1.0), hx(1.0))))
@@ -259,7 +269,7 @@ def run(ctx):
                               expected={"law": "two world-attached hinges coupled by a fixed tendon with armature a: M01 = a*c0*c1", "M": want}, observed=o[0],
                               signature={"site": "mj_tendonArmature", "class": "cross-branch-terms-dropped"})
         else:
-            o = parse(ol, "iiiiii" + "d" * 14 + "i")
+            o = parse(ol, "iiiiii" + "d" * 15 + "i")
             if o is None:
                 if "compile" in ol:
                     continue          # generator produced a model the compiler rejects: not a case
@@ -269,7 +279,7 @@ def run(ctx):
             if nv == 0:
                 continue
             par, simple, rnnz, radr, cind = o[1], o[2], o[3], o[4], o[5]
-            Mv, qLD, dinv, full, v, Mvv, u, bias, rne0, rnea, arm, Mref, Tm, biasref = o[6:20]
+            Mv, qLD, dinv, full, v, Mvv, u, bias, rne0, rnea, arm, Mref, Tm, biasref, invsum = o[6:21]
             stats["model"] += 1
             stats["model_nv_max"] = max(stats["model_nv_max"], nv)
             stats["models_with_simple_dofs"] += 1 if any(simple) else 0
@@ -316,7 +326,8 @@ def run(ctx):
                 viol(info, line, "mj_fullM v = mj_mulM v", matvec(F_, v), Mvv, "mulM")
             if not close(u, v, 1e-8):
                 viol(info, line, "mj_solveM(mj_mulM v) = v", v, u, "solveM")
-            if not close(bias, rne0, 1e-12):
+            has_ten_arm = any(t != 0 for t in Tm)
+            if not has_ten_arm and not close(bias, rne0, 1e-12):      # with tendon armature qfrc_bias also carries a J' (Jdot v)
                 viol(info, line, "qfrc_bias = mj_rne(0)", rne0, bias, "rne")
             # independent Newton-Euler at zero acceleration (world frame, Jdot v by central differences of mj_jac;
             # nothing of cdof / cdof_dot / cvel is used): the clause "the bias force equals recursive Newton-Euler"
@@ -324,6 +335,10 @@ def run(ctx):
             if not close(bias, biasref, 2e-6):
                 viol(info, line, "qfrc_bias = independent Newton-Euler force at zero acceleration (sum_b Jp' m (Jdot_p v - g) + Jr' (I Jdot_r v + w x I w))",
                      biasref, bias, "comVel_rne")
+            # inverse dynamics for a = v: what the implementation calls M a (its own mj_mulM) + the INDEPENDENT bias
+            want_inv = [Mvv[i] + biasref[i] for i in range(nv)]
+            if not close(invsum, want_inv, 2e-6, 1 + max(abs(t) for t in invsum + want_inv)):
+                viol(info, line, "mj_inverse: qfrc_inverse + qfrc_passive + qfrc_constraint = M a + independent Newton-Euler bias", want_inv, invsum, "inverse")
             Tv = matvec(rowsof(Tm, nv, nv), v)
             lhs = [rnea[i] - rne0[i] + arm[i] * v[i] + Tv[i] for i in range(nv)]
             if not close(lhs, Mvv, OT, 1 + max(abs(t) for t in rnea + rne0 + Mvv)):
